@@ -2,6 +2,7 @@
 //@ enforce-rec: ctl_process
 //@ replace: process_client remove_client accept_client
 //@ pre-unwind: ctl_process.0:3
+//@ defs: -DXV_CTL_TRACK=0
 //@ flags: --object-bits 10
 //@ props: C14
 //@ expect: postcondition>=3 canary=3
